@@ -589,6 +589,35 @@ def eval_case(ctx, case, want_dump=False, light=False):
         run_cf(h2, h3)
         D = run_cf(h1, h2)
         relation(ctx, "interleaved2", case, A, D, A["w12"], A["w21"], ppA, per_pair_world(D), lever, (h1, h2))
+    if not light:
+        # 4b. bodies used at another configuration, then moved IN PLACE (`body.body2origin_[:3, 3] += v * dt`, the way
+        #     the library's own examples move bodies) to the configuration of the case and queried again on the same
+        #     objects: must reproduce the query on fresh bodies
+        d1 = np.array([0.37, -0.21, 0.13]) * (1.0 + lever)
+        d2 = np.array([-0.11, 0.29, 0.41]) * (1.0 + lever)
+        T1, T2 = np.eye(4), np.eye(4)
+        T1[:3, 3], T2[:3, 3] = -d1, -d2
+        m1, m2 = make_body(moved(s1, T1)), make_body(moved(s2, T2))
+        run_cf(m1, m2)
+        m1.body2origin_[:3, 3] += d1
+        m2.body2origin_[:3, 3] += d2
+        E = run_cf(m1, m2)
+        relation(ctx, "moved_in_place", case, A, E, A["w12"], A["w21"], ppA, per_pair_world(E), lever, (m1, m2))
+    if not light:
+        # 4c. the same far away from the origin with a SMALL in-place step of one body (a simulation step of a scene that
+        #     is not centred at the origin): a test that decides "nothing moved" relative to the size of the coordinates
+        #     confuses the two configurations
+        O = np.eye(4)
+        O[:3, 3] = [2500.0, -1800.0, 900.0]
+        dl = np.array([0.6, -0.3, 0.2]) * 0.05 * max(bound_radius(a1), bound_radius(a2))
+        Td = np.eye(4)
+        Td[:3, 3] = -dl
+        n1, n2 = make_body(moved(s1, O)), make_body(moved(moved(s2, O), Td))
+        run_cf(n1, n2)
+        n2.body2origin_[:3, 3] += dl
+        F = run_cf(n1, n2)
+        relation(ctx, "small_step_far_from_origin", case, A, F, A["w12"], A["w21"], ppA, per_pair_world(F), lever,
+                 (n1, n2))
     # 5. swap
     b1, b2 = make_body(s1), make_body(s2)
     S = run_cf(b2, b1)
